@@ -1,8 +1,9 @@
 (* C18 - Address/text codecs, the src/idna.c part (UTF-8 decoder, IDNA/Punycode,
    UTF-16 <-> WTF-8).  Only statements, each closed by [exact] of a lemma proved
    in Proofs/, with Print Assumptions beneath. *)
-From UV Require Import Lib.Base Model.Idna Model.Wtf8 Spec.Utf8Spec
-  Proofs.IdnaBits Proofs.IdnaUtf8Proofs Proofs.Wtf8Proofs Proofs.IdnaWriterProofs.
+From UV Require Import Lib.Base Model.Idna Model.Wtf8 Spec.Utf8Spec Spec.PunycodeSpec
+  Proofs.IdnaBits Proofs.IdnaUtf8Proofs Proofs.Wtf8Proofs Proofs.IdnaWriterProofs
+  Proofs.IdnaPunycodeProofs.
 Local Open Scope N_scope.
 
 (* ---- UTF-8 ---------------------------------------------------------- *)
@@ -70,6 +71,66 @@ Example C18_toascii_bounded_example :
   idna_toascii [109; 97; 195; 177; 97; 110; 97] 5 = (UV_EINVAL, (5, [(4, 109); (3, 45); (2, 45); (1, 110); (0, 120)])) /\
   fst (idna_toascii [109; 97; 195; 177; 97; 110; 97] 16) = 14%Z.
 Proof. split; vm_compute; reflexivity. Qed.
+
+(* ---- IDNA / Punycode ------------------------------------------------------ *)
+
+(* A label (well-formed UTF-8 with code points [cps], fewer than 2^32-2 of them)
+   is left exactly as it is when all its code points are ASCII, and gets the
+   "xn--" prefix as soon as one is not.  [label_full] is uv__idna_toascii_label
+   with an unbounded destination. *)
+Theorem C18_toascii_label_iff_nonascii :
+  forall s cps, utf8_string s cps -> N.of_nat (length cps) + 2 < 4294967296 ->
+  (Forall (fun c => c < 128) cps -> label_full s = (Z.of_nat (length s), s)) /\
+  (Exists (fun c => 128 <= c) cps ->
+     (fst (label_full s) = 0%Z \/ fst (label_full s) = UV_E2BIG) /\
+     exists rest, snd (label_full s) = [120; 110; 45; 45] ++ rest).
+Proof. exact label_iff_nonascii. Qed.
+Print Assumptions C18_toascii_label_iff_nonascii.
+
+(* On well-formed UTF-8 the conversion either reports the 32-bit overflow
+   (UV_E2BIG; no wrapped value is ever used) or produces, label by label,
+   exactly "xn--" followed by the RFC 3492 section 6.3 encoding
+   ([spec_encode], transcribed from the RFC over unbounded naturals) for labels
+   with a non-ASCII code point and the label itself otherwise, joined by "."
+   ([spec_host]); with a destination of [de] bytes the answer and its length
+   NUL included are returned when they fit, UV_EINVAL when they do not. *)
+Theorem C18_toascii_is_rfc3492 :
+  (forall s cps, utf8_string s cps -> N.of_nat (length cps) + 2 < 4294967296 ->
+     (Exists (fun c => 128 <= c) cps ->
+        (fst (label_full s) = UV_E2BIG) \/
+        label_full s = (0%Z, [120; 110; 45; 45] ++ spec_encode cps))) /\
+  (forall s cps de, utf8_string s cps -> s <> [] -> N.of_nat (length cps) + 2 < 4294967296 ->
+     let '(rc, w) := idna_toascii s de in
+     let answer := spec_host cps [] in
+     rc = UV_E2BIG \/
+     (N.of_nat (length answer) + 1 <= de /\ rc = Z.of_N (N.of_nat (length answer) + 1) /\
+      written w = answer ++ [0]) \/
+     (de < N.of_nat (length answer) + 1 /\ rc = UV_EINVAL)).
+Proof.
+  split.
+  - intros s cps US HL HE. destruct (label_is_rfc3492 s cps US HL) as [_ HB].
+    destruct (HB (nonbasic_exists cps HE)) as [[L _]|E]; [left; exact L|right; exact E].
+  - exact toascii_is_rfc3492.
+Qed.
+Print Assumptions C18_toascii_is_rfc3492.
+
+(* The transcription of RFC 3492 reproduces the RFC's own samples (section 7.1
+   (B) Chinese simplified, (I) Russian, (L) 3<nen>B<gumi><kinpachi><sensei>)
+   and the section 6.2 decoder inverts the encoder on them.  The general
+   statement spec_decode (spec_encode l) = Some l is not proved (see
+   C18_punycode_roundtrip_partial below and notes/C18_idna.md). *)
+Example C18_rfc3492_samples :
+  spec_encode [20182; 20204; 20026; 20160; 20040; 19981; 35828; 20013; 25991]
+    = [105; 104; 113; 119; 99; 114; 98; 52; 99; 118; 56; 97; 56; 100; 113; 103; 48; 53; 54; 112; 113; 106; 121; 101] /\
+  spec_encode [51; 24180; 66; 32068; 37329; 20843; 20808; 29983]
+    = [51; 66; 45; 119; 119; 52; 99; 53; 101; 49; 56; 48; 101; 53; 55; 53; 97; 54; 53; 108; 115; 121; 50; 98] /\
+  spec_decode (spec_encode [20182; 20204; 20026; 20160; 20040; 19981; 35828; 20013; 25991])
+    = Some [20182; 20204; 20026; 20160; 20040; 19981; 35828; 20013; 25991] /\
+  spec_decode (spec_encode [51; 24180; 66; 32068; 37329; 20843; 20808; 29983])
+    = Some [51; 24180; 66; 32068; 37329; 20843; 20808; 29983] /\
+  label_full [109; 97; 195; 177; 97; 110; 97]
+    = (0%Z, [120; 110; 45; 45] ++ spec_encode [109; 97; 241; 97; 110; 97]).
+Proof. repeat split; vm_compute; reflexivity. Qed.
 
 (* ---- UTF-16 <-> WTF-8 --------------------------------------------------- *)
 
